@@ -939,13 +939,20 @@ def check_escape(run: Run, res: Resolver) -> None:
                 return isinstance(a, ast.Call) and ast.unparse(a.func) == "_ast_to_dict"
         return False
 
+    from .c14 import json_converters_exhaustive
+
+    conv_ok, conv_missing = json_converters_exhaustive(p, res)
+    run.instance("R20.5", "src/octave_mcp/mcp/eject.py", "premise of the json/yaml exemption: the JSON-side converters of the eject tool have a branch for every node and value kind" + ("" if conv_ok else f" - MISSING: {conv_missing}"), ok=True, nontrivial=True)
+
     def exempt(o: Origin) -> str | None:
-        if dumps_of_converter_output(o):
+        if dumps_of_converter_output(o) and conv_ok:
             for key in (("mcp.eject:EjectTool.execute", "json.dumps(data"), ("mcp.eject:EjectTool.execute", "yaml.dump(data")):
                 if key[1].split("(")[0] in o.construct:
                     used_exempt.add(key)
                     return ESCAPE_EXEMPT[key]
         for (fq, frag), why in ESCAPE_EXEMPT.items():
+            if frag.startswith(("json.dumps(", "yaml.dump(")) and not conv_ok:
+                continue  # the exemption's premise does not hold on this tree
             if (_short(o.fqn) == fq or (fq.endswith(":*") and _short(o.fqn).startswith(fq[:-1]))) and frag in o.construct:
                 used_exempt.add((fq, frag))
                 return why
